@@ -15,8 +15,10 @@ RULE = ('per object kind and request an exhaustive value grid (all in-range valu
         'the invariant ranges; forced-settings histories with exact prediction of mode/bandwidth/channels/toMono; '
         'create/init argument grids incl. k-th allocation failure and init on caller memory; gen_toc on its whole domain; '
         'frame_size_select grid; random settings fixed before the first frame (plus a mid-stream FORCE_CHANNELS change) -> '
-        'TOC of every packet; a deterministic corpus case (forced mono during a SILK-DTX run). S4 evaluates '
-        'reject-unchanged / read-back / documented-legality / create predicates on the implementation output alone. '
+        'TOC of every packet; histories that re-select the application after OPUS_RESET_STATE (suite ctl-reapp); a '
+        'deterministic corpus case (forced mono during a SILK-DTX run). S4 evaluates reject-unchanged / read-back / '
+        'documented-legality / create predicates AND the honour predicates (duration, MDCT-only, channels, bandwidth) on '
+        'every packet of every history against the settings the implementation itself reported before the call. '
         'A case is distinct by (suite, op, outcome kind)')
 NOT_COVERED = [
     'the DSP-dependent decisions inside opus_encode_native (rate-dependent stereo/mode/bandwidth thresholds, detected '
